@@ -267,7 +267,7 @@ fn run<B: SimField, H: ElementHasher<BaseField = B> + Send + Sync + 'static>(ch:
 
     // prover party
     coin::clear_log();
-    let (out, _) = prove::<B, H, RecordingCoin<H>>(&case, &case.rows, None);
+    let (out, prec) = prove::<B, H, RecordingCoin<H>>(&case, &case.rows, None);
     let plog = coin::take_log();
     let ProveOutcome::Ok(proof) = out else {
         ctx.skipped = Some("baseline_failed");
@@ -276,8 +276,35 @@ fn run<B: SimField, H: ElementHasher<BaseField = B> + Send + Sync + 'static>(ch:
     let proof = *proof;
     // verifier party
     coin::clear_log();
+    SEEN_BY_VERIFIER.with(|s| *s.borrow_mut() = SeenChallenges::default());
     let v = verify_with::<B, H, RecordingCoin<H>>(proof.clone(), case.inputs.clone(), &min_sec0());
     let vlog = coin::take_log();
+    // 0. the challenges for the auxiliary segment as each party USED them (whatever the verdict:
+    //    two parties that make the same coin calls but hand the results to different consumers
+    //    have identical histories and still disagree on every value)
+    if case.shape.aux.is_some() {
+        let seen = SEEN_BY_VERIFIER.with(|s| s.borrow().clone());
+        if let Some(vr) = &seen.aux_rands {
+            if *vr != prec.aux_rands {
+                ctx.violation(
+                    "C04/challenge-used-differs auxiliary-segment-randomness",
+                    format!("the auxiliary random elements the verifier's AIR was handed differ from the ones the prover built its auxiliary segment with (prover {} elements, verifier {}); {}", prec.aux_rands.len(), vr.len(), ctxt()),
+                );
+                return;
+            }
+            ctx.probe("aux_randomness_used_identically");
+        }
+        if let Some(vl) = &seen.lagrange {
+            if *vl != prec.lagrange_rands {
+                ctx.violation(
+                    "C04/challenge-used-differs lagrange-kernel-randomness",
+                    format!("the Lagrange-kernel random elements the verifier drew differ from the ones the prover built the Lagrange column with; {}", ctxt()),
+                );
+                return;
+            }
+            ctx.probe("lagrange_randomness_used_identically");
+        }
+    }
     if !v.accepted() {
         ctx.skipped = Some("baseline_failed");
         return;
